@@ -44,13 +44,19 @@ CHECKS["C01"] = {
     "technique": "exhaustive bounded enumeration of wiring programs x insertion orders x tick histories on the real engine, "
                  "checked by a static rank check, a lifecycle-observer monitor and a per-cycle reference interpreter",
     "design_ref": "DESIGN.md 2/C01",
-    "parts": [{"name": "graphx", "exe": "c01_order", "sources": ["c01_order.cpp"], "shards": 16}],
+    "parts": [{"name": "graphx", "exe": "c01_order", "sources": ["c01_order.cpp"], "shards": 16},
+              {"name": "pause", "exe": "c01_pause", "sources": ["c01_pause.cpp"], "shards": 8}],
     "rule": "every canonical DAG program of <= N statements over {int source, bool source, 1/2/3-input compute, stateful accumulator, "
             "to_tsl/to_tsb structural source + collection reader, if_then_else (REF), nested_<G> and inlined wire<G> of 4 bodies up to "
             "nesting depth 2} in which every statement but the last is consumed; x EVERY insertion order of the statements (inputs not yet "
             "wired go through delayed_binding); x every tick pattern of every source over T cycles (cycle-unique values); plus rings of 1..4 "
             "nodes closed by delayed binding / rank dependency (must be rejected) or feedback (must run). non-trivial = a non-identity "
-            "insertion order together with >= 2 sources ticking in the same cycle.",
+            "insertion order together with >= 2 sources ticking in the same cycle. "
+            "Every program also with the second input of one two/three-input node marked passive(). pause part: Before -> Gate -> After, flat, inside "
+            "nested_ and inside try_except_, driven cycle by cycle through MockGraphExecutor; the gate may throw, or PAUSE once or twice (evaluate "
+            "returns false, the cycle is evaluated again at the same time); every history over T cycles of {none, value, throwing value, pause-once, "
+            "pause-twice}: Before and After run exactly once per ticking cycle, the gate is entered once per resume and completes once, nothing runs "
+            "after a throw, a captured throw (try_except_) does not disturb later cycles.",
     "bounds": {"quick": "N<=4 statements, <=2 sources, T=3 (T=2 for N=4), all 4!/3!/2! orders",
                "thorough": "N<=5 statements, <=3 sources, T=3, all orders"},
     "min_counters": {"quick": {"nontrivial": 10000, "graphx.cycle_cases": 20, "graphx.runs_with_nested_evaluations": 1000}},
